@@ -28,7 +28,8 @@
 //              combination of --print-hidden / --print-deprecated / --help-short / --help-long.  Judged on the
 //              usage text: U1 a line longer than the line length holds, besides the key that starts it, at most
 //              one word; U2 the words of every printed description appear exactly once and in their order, those
-//              of an argument that is not displayed never
+//              of an argument that is not displayed never; U3 every description line below the captions starts with
+//              at least the two indentations (6 blanks)
 
 #include "vh.hpp"
 
@@ -462,7 +463,7 @@ static void run_usage_case(vh::Rng& r, uint64_t idx)
       return;
    }
    // U1: width
-   bool bad = false;
+   bool bad = false, inArgs = false;
    size_t pos = 0, lineNo = 0;
    unsigned longest = 0;
    while (pos <= o.size())
@@ -474,6 +475,20 @@ static void run_usage_case(vh::Rng& r, uint64_t idx)
       ++lineNo;
       fs.add("usage.lines");
       if (line.size() > longest) longest = (unsigned)line.size();
+      // U3: below the captions every line is an entry line ("   -key ..."), empty, or a description line inside the block
+      // (indented by at least the two indentations in front of and behind the key column)
+      if (line == "Mandatory arguments:" || line == "Optional arguments:") inArgs = true;
+      else if (inArgs && !line.empty() && line.compare(0, 4, "   -") != 0)
+      {
+         fs.add("usage.description_lines_checked_for_indentation");
+         if (line.size() < 6 || line.compare(0, 6, "      ") != 0)
+         {
+            bad = true;
+            char b[160];
+            snprintf(b, sizeof b, "line %zu of the usage is a description line that does not start with the block indentation: ", lineNo);
+            out.viol("usage-indent|description line not indented", std::string(b) + line.substr(0, 200) + " | " + gUsageDescr);
+         }
+      }
       if (line.size() == (size_t)lineLen) fs.add("usage.lines_exactly_line_length");
       if (line.size() <= (size_t)lineLen) continue;
       // words of the line, the key that starts an entry line not counted
